@@ -127,4 +127,35 @@ impl<K: PartialEq, V> HashMap<K, V> {
         }
         None
     }
+    pub fn get_mut(&mut self, k: &K) -> Option<&mut V> {
+        let mut i = 0;
+        while i < self.entries.len() {
+            if &self.entries[i].0 == k {
+                return Some(&mut self.entries[i].1);
+            }
+            i += 1;
+        }
+        None
+    }
+    pub fn contains_key(&self, k: &K) -> bool {
+        self.get(k).is_some()
+    }
+    pub fn len(&self) -> usize {
+        self.entries.len()
+    }
+    pub fn is_empty(&self) -> bool {
+        self.entries.is_empty()
+    }
+    /// (keys are unique in every map the harnesses build: `insert` replaces)
+    pub fn insert(&mut self, k: K, v: V) -> Option<V> {
+        let mut i = 0;
+        while i < self.entries.len() {
+            if self.entries[i].0 == k {
+                return Some(std::mem::replace(&mut self.entries[i].1, v));
+            }
+            i += 1;
+        }
+        self.entries.push((k, v));
+        None
+    }
 }
